@@ -219,8 +219,12 @@ pub fn record(args: &[String]) -> anyhow::Result<()> {
         let steps = stream::run_adapter(adapter, dec, &segs, eof);
         // tampering after the last field = bytes appended to the stream (model: badFrom = NF + 1); truncation alone is not tampering
         let bad_model = if op == "truncate" { 0 } else { bad };
-        writeln!(w, "{}", c04::layout_line(&fx, adapter, bad_model))?;
-        c04::write_steps(&mut w, &fx, &segs, &steps, eof)?;
+        // without integrity protection an edited stream may parse as a different valid stream: such runs are
+        // judged for panics only, not recorded (the layout no longer describes what is on the wire)
+        if !proto.starts_with("trojan") || op == "truncate" {
+            writeln!(w, "{}", c04::layout_line(&fx, adapter, bad_model))?;
+            c04::write_steps(&mut w, &fx, &segs, &steps, eof)?;
+        }
         let why = judge_tampered(&fx, &steps, bad, !proto.starts_with("trojan"));
         if !why.is_empty() {
             bad_runs.push(json!({"proto": proto, "adapter": adapter, "producer": producer, "op": op, "bad_from": bad, "cuts": offs, "eof": eof, "why": why}));
